@@ -204,6 +204,8 @@ pub enum Step {
     /// `dst.clone_from(&src)` on two live handles of the same payload type
     CloneFromHandle { dst: u8, src: u8 },
     DropHandle { h: u8 },
+    /// the handle is dropped while the thread unwinds from an unrelated panic
+    DropHandleUnwinding { h: u8 },
     ArmTracePanic { k: u8 },
     /// the k-th destructor run by the next arena drop panics (fault injection for C04 / C11)
     ArmDropPanic { k: u8 },
@@ -215,6 +217,9 @@ pub enum Step {
     DropArena { arena: u8 },
     /// finish_cycle(); finish_cycle(); then the exactness oracle
     Settle { arena: u8 },
+    /// the phase protocol on a separate small arena whose root type holds no pointers (`()`, an
+    /// integer, a `Static`, a derived struct without Gc fields) or, as a control, one that does
+    PlainRootProtocol { root: u8, variant: u8 },
 }
 
 #[derive(Clone, Debug, PartialEq, Serialize, Deserialize)]
